@@ -46,6 +46,20 @@ def metaize(draw, fam, vals):
                     alpha = alpha + [mk[-1], mk[0]]     # lone bytes of a multi-byte delimiter are legitimate content
                 body = bytes(draw(st.sampled_from(alpha)) for _ in range(body_len))
                 out[f["name"]] = body + (mk if f.get("incl") else b"")
+    # a kept regex delimiter matched at the very START of its field, right after a byte that matters to \b / look-behind / (?i):
+    # unpack evaluates such a pattern against the field's own slice, the derived expression sees the previous field too
+    for idx, f in enumerate(p["fields"]):
+        if f["k"] == "data" and f["size"][0] == "regex" and f.get("incl") and isinstance(out.get(f["name"]), bytes) and chance(draw, 0.5):
+            ent = [r for r in gen.REGEXES if r[0] == f["size"][1]]
+            if not ent:
+                continue
+            out[f["name"]] = draw(st.sampled_from(ent[0][2]))
+            prev = p["fields"][idx - 1] if idx else None
+            wordy = st.sampled_from(list(b"AzE09_;a"))
+            if prev and prev["k"] == "int" and not prev.get("ctl"):
+                out[prev["name"]] = int.from_bytes(bytes(draw(wordy) for _ in range(prev["n"])), "big")
+            elif prev and prev["k"] == "data" and prev["size"][0] == "const" and prev["size"][1] > 0:
+                out[prev["name"]] = bytes(draw(wordy) for _ in range(prev["size"][1]))
     for (i, j) in ir.bits_runs(p["fields"]):
         run = p["fields"][i:j]
         if any(g.get("ctl") for g in run) or not chance(draw, 0.6):
@@ -62,6 +76,15 @@ def metaize(draw, fam, vals):
 @st.composite
 def cases(draw):
     fam = draw(gen.families(gen.profile(**dict(PROF, max_pkts=1))))
+    if chance(draw, 0.25):
+        # stratum: every regex delimiter of the pool, kept in the value, between two small neighbours
+        ent = draw(st.sampled_from(gen.REGEXES))
+        prev = draw(st.sampled_from([{"k": "int", "name": "p", "n": 1, "signed": False, "endian": None}, {"k": "data", "name": "p", "size": ["const", 2], "incl": False},
+                                     {"k": "int", "name": "p", "n": 2, "signed": False, "endian": "little"}]))
+        opts = {"search_buffer_length": draw(st.sampled_from([4, 6, 12]))} if chance(draw, 0.25) else {}
+        fam = {"pkts": [{"name": "G", "opts": opts, "fields": [
+            prev, {"k": "data", "name": "d", "size": ["regex", ent[0]] + ([int(ent[4])] if len(ent) > 4 else []), "incl": True},
+            {"k": "int", "name": "q", "n": 1, "signed": False, "endian": None}]}]}
     cg = draw(decl.cg_options())
     root = ir.root(fam)
     if chance(draw, 0.3) and "align" not in (root.get("opts") or {}):
